@@ -322,7 +322,7 @@ class Machine(object):
                 return TOP
         if obj[0] == 'G' and obj[1] == self.safe_name and path == ():
             return SAFE
-        if obj[0] == 'G' and obj[1] not in ('URI', 'STATE', 'ERRPOS'):
+        if obj[0] == 'G' and obj[1] not in ('URI', 'STATE', 'ERRPOS', 'OCT'):
             raise Imprecise('read of global %s at %s' % (obj[1], fmt_loc(e.loc)))
         return TOP
 
@@ -348,7 +348,7 @@ class Machine(object):
                 v = PIN
         if self.cellwatch and obj[0] == 'L' and len(path) == 2 and path[0] in self.cellwatch:
             self.obs.append(('cell-write', obj[1], path[0], path[1]))
-        if obj[0] == 'G' and obj[1] not in ('URI', 'STATE', 'ERRPOS'):
+        if obj[0] == 'G' and obj[1] not in ('URI', 'STATE', 'ERRPOS', 'OCT'):
             raise Finding('no-global-write', 'global-write', loc, 'store to global %s' % obj[1])
         st.env[pl] = v
 
